@@ -21,7 +21,7 @@ import (
 func init() {
 	Register(&Prop{
 		ID: "C10", Engine: "A", Quick: 12000, Thorough: 100000, Level: "exploration",
-		Rule:     "each run = one generated query scenario (select / insert, streamed or not, drawn schema, compression, revisions, read timeout, optional back-pressure) + one cancellation fault: context cancel or deadline expiry at a drawn gate (during handshake write/read, after k client bytes, after server script position p, at scheduler step s, inside callback j), with the server going silent at that instant in half of the runs; free schedule before the cancellation, fair mode after it; distinct = schedule digests; non-trivial = the cancellation fired while Connect or Do was in progress",
+		Rule:     "each run = one generated query scenario (select / insert, streamed or not, drawn schema, compression, revisions, read timeout, optional back-pressure) + one cancellation fault: context cancel or deadline expiry at a drawn gate (during handshake write/read, after k client bytes, after server script position p, at scheduler step s, inside callback j), with the server going silent at that instant in half of the runs (at a packet boundary, or after the first bytes of its next packet so that the receiver sits inside a packet when the context ends), or having stopped reading altogether so that the sender is blocked inside Write; concurrent Writes are serialised by a write lock as on a socket; free schedule before the cancellation, fair mode after it; distinct = schedule digests; non-trivial = the cancellation fired while Connect or Do was in progress",
 		Run:      runC10,
 		SlowCase: 20 * time.Second,
 	})
